@@ -5,7 +5,7 @@ SERVICE = Comp('service', n_quick=256, n_thorough=6000, oracle=service.service_o
                stats=service.service_stats, chunk_min=10, timeout=900)
 
 reg(Prop('C19', 'Kevo.Props.C19',
-         facts=['facts:api.rpc.*', 'facts:api.svc.*', 'facts:api.facade.*', 'consts:service.*'],
+         facts=['facts:api.rpc.*', 'facts:api.svc.*', 'facts:api.facade.*', 'consts:service.*', 'facts:server.*', 'consts:main.maxMessageSize'],
          components=[SERVICE],
          fact_tags=['api'],
          rule='component service: the REAL KevoServiceServer behind an in-process gRPC server on a bufconn listener, driven through the '
